@@ -24,8 +24,10 @@
    API
      sel_new box readonly          SelectedMailbox(...) as built by select_mailbox
      add_updates msgs expunged s   SelectedMailbox.add_updates
-     silence targets fl op s       SelectedMailbox.silence; targets = [(uid, flags the cached
-                                   message shows)] for the addressed messages
+     silence targets fl op s       SelectedMailbox.silence; targets = [(uid, flags in
+                                   _flags_key_map)] for the addressed messages (since fix
+                                   258cff1 the flags the session last synchronized, not the
+                                   live flags of the aliased cached message)
      freeze s                      _Frozen(s)
      compare_uids buids bseqs auids hide   EXPUNGE + EXISTS part of _compare (pure core of C01)
      compare cached before after hide silenced recent with_uid   _compare
@@ -80,7 +82,7 @@ Definition add_updates (msgs : list (N * flags)) (expunged : list N) (s : select
 Definition uf_eqb : N * flags -> N * flags -> bool := pair_eqb N.eqb fs_eqb.
 Definition uf_mem (x : N * flags) (l : list (N * flags)) : bool := existsb (uf_eqb x) l.
 
-(* silence(): targets are the addressed messages with the flags their cached object shows *)
+(* silence(): targets are the addressed messages with their _flags_key_map flags *)
 Definition silence (targets : list (N * flags)) (fl : flags) (op : flagop) (s : selected) : selected :=
   let pset := perm_intersect fl in
   let add acc t :=
